@@ -7,6 +7,8 @@ texts are `,`-joined (`_` = empty list), positions are byte offsets.
   cm.ungrouped <code>            -> panic | slices      `UngroupedCommentCodeSlices::new(code)`
   cm.slices <code>               -> panic | slices      `CommentCodeSlices::new(code)`
         slices = `_` or `<N|C>:<start>:<text>` joined by `;`
+  cm.lexcomments <code>          -> panic | slices      the comment slices of `cm.ungrouped`, a line
+                                    comment without its final newline (= the lexer's comment tokens)
   cm.payload <comment>           -> panic | text        `CommentReducer::new(comment).collect()`
   cm.changed <orig> <new>        -> panic | 0 | 1       `changed_comment_content`
   cm.recover <new> <snippet> <error_on_unformatted:0|1> -> panic | `<text> <lost:0|1>`
@@ -65,6 +67,15 @@ def handle (op : String) (args : List String) : Option String :=
   | "cm.ungrouped", [t] => do
     let t ← decChars t
     pure (encSlices (ungrouped? t))
+  | "cm.lexcomments", [t] => do
+    let t ← decChars t
+    match ungrouped? t with
+    | none => pure "panic"
+    | some sl =>
+      let cs := (sl.filter (·.kind == .comment)).map fun s =>
+        -- a line comment slice contains its '\n'; the lexer's token does not
+        if startsWith s.text "//".toList && s.text.getLast? == some '\n' then { s with text := s.text.dropLast } else s
+      pure (encSlices (some cs))
   | "cm.slices", [t] => do
     let t ← decChars t
     pure (encSlices (commentCodeSlices? t))
